@@ -253,6 +253,8 @@ class TwoDirectories(object):
 class OneFileTwoNames(object):
     case_timeout = 30
     name = 'one-file-reached-under-two-names'
+    prefix = 'C08'
+    ignore = True
     describe = ('a REAL FileReader directory (fuzzy -MIB matching on, as by default): module A imports from FOO and from FOO-MIB (or '
                 'both names are requested) while only one of FOO.txt / FOO-MIB.txt exists: the file is fetched and parsed once per '
                 'call; the name that no module carries is missing (when imported) and the other compiled')
@@ -303,9 +305,17 @@ class OneFileTwoNames(object):
             comp = env.MibCompiler(P(), env.make_codegen('json'), w)
             comp.addSources(FileReader(root))
             comp.addSearchers(env.StubSearcher(*env.BASE_NAMES))
-            res = comp.compile(*req, ignoreErrors=True)
-            sig = 'C08|one-file-two-names|%s-present|%s' % (present, case['how'])
+            res = comp.compile(*req, ignoreErrors=self.ignore)
+            sig = '%s|one-file-two-names|%s-present|%s' % (self.prefix, present, case['how'])
             vs = []
+            if not self.ignore and case['how'].startswith('imported'):
+                # a module of the closure cannot be found: nothing at all is written
+                if w.written:
+                    vs.append(('%s|written-although-a-module-of-the-closure-is-missing' % sig,
+                               'written %r, result %r' % ([x[0] for x in w.written], dict((k, str(v)) for k, v in res.items()))))
+                if str(res.get(absent)) not in ('missing', 'failed'):
+                    vs.append(('%s|name-nobody-carries-is-%s' % (sig, res.get(absent)), repr(dict((k, str(v)) for k, v in res.items()))))
+                return repr(sorted((k, str(v)) for k, v in res.items())), vs, 1
             if parsed.count(present) != 1:
                 vs.append(('%s|file-parsed-%d-times' % (sig, parsed.count(present)), 'texts parsed: %r' % parsed))
             if res.get(present) != 'compiled':
